@@ -204,6 +204,8 @@ def gen_workload(rng, cfg, thorough):
                     ops.append(['load', key])
                 else:
                     ops.append(['newstore'])
+            if rng.random() < 0.08:
+                ops.insert(0, ['nocache'])       # this process runs with GI_SCANNER_DISABLE_CACHE set
             procs.append(ops)
         ep = {'env': env, 'procs': procs}
         if cfg['family'] == 'midmod':
@@ -303,6 +305,8 @@ class RandomDecider(object):
         if call in ('read', 'write') and size and size > 1 and rng.random() < cfg['p_short']:
             return slot, Directive('short', rng.randint(1, size - 1))
         if cfg['p_err'] and rng.random() < cfg['p_err']:
+            if 'EACCES' in cfg['errs'] and call == 'makedirs' and cls in ('cachedir', 'other'):
+                return slot, Directive('errno', errno.EACCES)
             if 'EACCES' in cfg['errs'] and call in ('unlink', 'rename', 'open') and cls in ('entry', 'stamp', 'tmp'):
                 return slot, Directive('errno', errno.EACCES)
             if 'EIO' in cfg['errs'] and call == 'read':
@@ -654,6 +658,15 @@ class CacheSim(object):
         if fam == 'oserr':
             injected = {getattr(errno, n) for n in self.cfg['errs']}
             if isinstance(exc, OSError) and getattr(exc, '_sim', False) and exc.errno in injected:
+                # one thing C18 does promise under OS errors: "an unreadable ... entry is discarded
+                # instead of raising" -- a load whose open or read of *its own cache entry* fails
+                # must answer "nothing", not die
+                if op[0] in ('load', 'parse_include') and last is not None and last[3] in ('open', 'read') \
+                        and last[4] == self.entry_path(op[1]):
+                    self.violate('O2', 'O2@%s:unreadable-entry-raised:%s:%s' % (op[0], last[3], errno.errorcode.get(exc.errno)), {
+                        'op': op, 'slot': p.slot, 'epoch': rec['epoch'], 'exception': repr(exc), 'site': site,
+                        'last_call': lastcall})
+                    return
                 self.probe('oserr_op_failed_with_injected_errno')
                 return
             # a secondary effect of an injected fault on *another* process is still an OS-fault
@@ -723,7 +736,7 @@ class CacheSim(object):
                 self._check_discard(p, rec, key, opened, evs)
         elif kind in ('construct', 'newstore'):
             rec['result'] = 'ok'
-            if self.cfg['family'] != 'oserr':
+            if self.cfg['family'] != 'oserr' and 'GI_SCANNER_DISABLE_CACHE' not in p.environ:
                 now = self._cachedir_snapshot()
                 left = []
                 for name, ino in rec['snap'].items():
@@ -839,6 +852,10 @@ class CacheSim(object):
             from giscanner import ast as gast
             from giscanner import transformer as gtrans
             from giscanner.girparser import GIRParser
+            ops_ = list(ops)
+            if ops_ and ops_[0][0] == 'nocache':
+                p.environ['GI_SCANNER_DISABLE_CACHE'] = '1'
+                ops_.pop(0)
             rec = sim.op_begin(p, ['construct'])
             try:
                 T = gtrans.Transformer(gast.Namespace('Main', '1.0'))
@@ -850,14 +867,14 @@ class CacheSim(object):
                 return 'died'
             p.transformer = T
             sim.op_end(p, rec, value=T)
-            for op in ops:
+            for op in ops_:
                 rec = sim.op_begin(p, op)
                 try:
                     kind = op[0]
                     if kind == 'parse_include':
                         val = T._parse_include(SOURCES[op[1]])
                     elif kind == 'load':
-                        val = T._cachestore.load(SOURCES[op[1]])
+                        val = T._cachestore.load(SOURCES[op[1]]) if T._cachestore is not None else None
                     elif kind == 'newstore':
                         val = gtrans.CacheStore()
                         T._cachestore = val
